@@ -161,6 +161,9 @@ impl Prop for C14 {
     fn watchdog(&self) -> Option<Duration> {
         Some(Duration::from_secs(60))
     }
+    fn hang_is_violation(&self) -> bool {
+        true
+    }
     fn max_shrink_iters(&self) -> u32 {
         600
     }
